@@ -402,7 +402,10 @@ fn inproc_typed<T: BodyGen>(rep: &mut Report, rng: &mut Rng, ctx: Value) {
         }
     };
     let (kind, status) = KINDS[k];
-    let class = format!("{kind}|{}:{vclass}|{}|{}|decl:{}", T::NAME, WRAPS[wrap], hc.coll_class, hc.decl_class);
+    let class = format!("{kind}|{}:{vclass}|{}|{}|decl:{}", T::NAME, WRAPS[wrap], hc.coll_class, hc.decl_kind);
+    for c in hc.decl_class.split('+').filter(|c| !c.is_empty()) {
+        rep.count(&format!("declared-value-class:{c}"), 1);
+    }
     let mut ctx = ctx;
     ctx["kind"] = json!(kind);
     ctx["type"] = json!(T::NAME);
@@ -422,7 +425,7 @@ fn inproc_nobody(rep: &mut Report, rng: &mut Rng, ctx: Value) {
     let wrap = rng.usize(WRAPS.len());
     let hc = HeaderCase::gen(rng, wrap, false);
     let (kind, status) = NOBODY[k];
-    let class = format!("{kind}|empty|{}|{}|decl:{}", WRAPS[wrap], hc.coll_class, hc.decl_class);
+    let class = format!("{kind}|empty|{}|{}|decl:{}", WRAPS[wrap], hc.coll_class, hc.decl_kind);
     let mut ctx = ctx;
     ctx["kind"] = json!(kind);
     ctx["headers"] = hc.json();
@@ -814,7 +817,7 @@ pub fn live_client(rep: &mut Report, addr: std::net::SocketAddr, seed: u64, shar
             (
                 format!("/c12/{kind}/{}", WRAPS[wrap]),
                 Some(Expect { kind, status, body: None, headers: hc.expected() }),
-                format!("{kind}|empty|{}|{}|decl:{}", WRAPS[wrap], hc.coll_class, hc.decl_class),
+                format!("{kind}|empty|{}|{}|decl:{}", WRAPS[wrap], hc.coll_class, hc.decl_kind),
                 ctx,
             )
         } else if which <= 3 {
@@ -854,7 +857,7 @@ pub fn live_client(rep: &mut Report, addr: std::net::SocketAddr, seed: u64, shar
             (
                 format!("/c12/{kind}/{}/{}", WRAPS[wrap], t.name),
                 Some(Expect { kind, status, body: Some((want, fm)), headers: hc.expected() }),
-                format!("{kind}|{}:{vclass}|{}|{}|decl:{}", t.name, WRAPS[wrap], hc.coll_class, hc.decl_class),
+                format!("{kind}|{}:{vclass}|{}|{}|decl:{}", t.name, WRAPS[wrap], hc.coll_class, hc.decl_kind),
                 ctx,
             )
         };
